@@ -7,6 +7,91 @@ import SqlglotModel.Model.Exec
 namespace SqlglotModel.Exec
 open SqlglotModel.Sem
 
+/-! ## the stable sort -/
+theorem insertSorted_perm {α} (le : α → α → Bool) (x : α) (l : List α) : List.Perm (insertSorted le x l) (x :: l) := by
+  induction l with
+  | nil => exact List.Perm.refl _
+  | cons y ys ih =>
+    simp only [insertSorted]
+    split
+    · exact List.Perm.refl _
+    · exact ((List.Perm.cons y ih).trans (List.Perm.swap x y ys))
+
+theorem stableSort_perm {α} (l : List α) (le : α → α → Bool) : List.Perm (stableSort le l) l := by
+  induction l with
+  | nil => exact List.Perm.refl _
+  | cons x xs ih => exact (insertSorted_perm le x _).trans (List.Perm.cons x ih)
+
+theorem pairwise_insertSorted {α} {le : α → α → Bool} (trans : ∀ a b c, le a b = true → le b c = true → le a c = true)
+    (total : ∀ a b, (le a b || le b a) = true) (x : α) (l : List α) (h : l.Pairwise fun a b => le a b = true) :
+    (insertSorted le x l).Pairwise fun a b => le a b = true := by
+  induction l with
+  | nil => simp [insertSorted]
+  | cons y ys ih =>
+    rw [List.pairwise_cons] at h
+    simp only [insertSorted]
+    by_cases hxy : le x y = true
+    · rw [if_pos hxy]
+      rw [List.pairwise_cons]
+      refine ⟨?_, List.pairwise_cons.2 h⟩
+      intro z hz
+      simp only [List.mem_cons] at hz
+      rcases hz with rfl | hz
+      · exact hxy
+      · exact trans x y z hxy (h.1 z hz)
+    · rw [if_neg hxy]
+      have hyx : le y x = true := by
+        have := total x y
+        simp only [Bool.or_eq_true] at this
+        rcases this with h1 | h1
+        · exact absurd h1 hxy
+        · exact h1
+      rw [List.pairwise_cons]
+      refine ⟨?_, ih h.2⟩
+      intro z hz
+      have := (insertSorted_perm le x ys).mem_iff.1 hz
+      simp only [List.mem_cons] at this
+      rcases this with rfl | hz'
+      · exact hyx
+      · exact h.1 z hz'
+
+theorem pairwise_stableSort {α} {le : α → α → Bool} (trans : ∀ a b c, le a b = true → le b c = true → le a c = true)
+    (total : ∀ a b, (le a b || le b a) = true) (l : List α) : (stableSort le l).Pairwise fun a b => le a b = true := by
+  induction l with
+  | nil => simp [stableSort]
+  | cons x xs ih => exact pairwise_insertSorted trans total x _ ih
+
+theorem map_insertSorted {α β} {r : α → α → Bool} {s : β → β → Bool} {f : α → β} (x : α) (l : List α)
+    (h : ∀ y ∈ l, r x y = s (f x) (f y)) : (insertSorted r x l).map f = insertSorted s (f x) (l.map f) := by
+  induction l with
+  | nil => rfl
+  | cons y ys ih =>
+    simp only [insertSorted, List.map_cons]
+    rw [h y (by simp)]
+    split
+    · rfl
+    · simp only [List.map_cons, ih (fun z hz => h z (by simp [hz]))]
+
+theorem map_stableSort {α β} {r : α → α → Bool} {s : β → β → Bool} {f : α → β} {l : List α}
+    (hxs : ∀ a ∈ l, ∀ b ∈ l, r a b = s (f a) (f b)) : (stableSort r l).map f = stableSort s (l.map f) := by
+  induction l with
+  | nil => rfl
+  | cons x xs ih =>
+    simp only [stableSort, List.map_cons]
+    rw [map_insertSorted x _ (fun y hy => hxs x (by simp) y (by simp [(stableSort_perm xs r).mem_iff.1 hy]))]
+    rw [ih (fun a ha b hb => hxs a (by simp [ha]) b (by simp [hb]))]
+
+theorem stableSort_of_pairwise {α} {le : α → α → Bool} {l : List α} (h : l.Pairwise fun a b => le a b = true) :
+    stableSort le l = l := by
+  induction l with
+  | nil => rfl
+  | cons x xs ih =>
+    rw [List.pairwise_cons] at h
+    simp only [stableSort, ih h.2]
+    cases xs with
+    | nil => rfl
+    | cons y ys => simp only [insertSorted]; rw [if_pos (h.1 y (by simp))]
+
 /-! ## Kleene logic, IN, comparisons -/
 theorem norm_eq (v : Val) : norm v = triVal (toTri v) := by cases v <;> rfl
 theorem toTri_triVal (t : Tri) : toTri (triVal t) = t := by
@@ -1020,7 +1105,7 @@ theorem sort_step_spec (items : List OrdItem) (limit : Option Nat) (offset : Nat
   rw [sortKeyCmp_spec]
 
 theorem sort_rows_perm (c : Cfg) (items : List OrdItem) (rows : List Row) : List.Perm (sortRows c items rows) rows :=
-  List.mergeSort_perm _ _
+  stableSort_perm _ _
 
 
 /-! ## runs of a clustered list are the GROUP BY groups -/
@@ -1164,5 +1249,508 @@ theorem runs_groups (keyOf : Row → Key) (agg : List Row → Row) (rows : List 
     have := groupAgg_of_runs keyOf agg _ hok h
     rw [hflat] at this
     exact this.symm
+
+
+/-! ## the group-key order; sorting clusters the keys -/
+/-- comparison of one component of Context.sort's key `(t is None, t)` -/
+def elemCmp (a b : Val) : Ordering :=
+  match compare a.isNull b.isNull with
+  | .eq => Val.cmp a b
+  | o => o
+
+theorem groupKeyCmp_cons (a b : Val) (as bs : Key) :
+    groupKeyCmp (a :: as) (b :: bs) = match elemCmp a b with | .eq => groupKeyCmp as bs | o => o := by
+  simp only [groupKeyCmp, elemCmp]
+  cases compare a.isNull b.isNull <;> simp
+  cases Val.cmp a b <;> simp
+
+theorem elemCmp_eq_iff (a b : Val) : elemCmp a b = .eq ↔ a = b := by
+  cases a <;> cases b <;> simp [elemCmp, Val.isNull, Val.cmp, Val.tag]
+theorem elemCmp_swap (a b : Val) : elemCmp b a = (elemCmp a b).swap := by
+  cases a <;> cases b <;> simp only [elemCmp, Val.isNull, Val.cmp, Val.tag] <;> first | rfl | exact Std.OrientedOrd.eq_swap | decide
+theorem elemCmp_lt_trans (a b c : Val) (h1 : elemCmp a b = .lt) (h2 : elemCmp b c = .lt) : elemCmp a c = .lt := by
+  cases a <;> cases b <;> cases c <;> simp only [elemCmp, Val.isNull, Val.cmp, Val.tag] at h1 h2 ⊢ <;>
+    first
+    | exact Std.TransCmp.lt_trans h1 h2
+    | (exfalso; revert h1; decide)
+    | (exfalso; revert h2; decide)
+    | decide
+    | (simp at h1 h2 ⊢; exact Std.TransCmp.lt_trans h1 h2)
+
+theorem groupKeyCmp_eq_iff (x y : Key) : groupKeyCmp x y = .eq ↔ x = y := by
+  induction x generalizing y with
+  | nil => cases y <;> simp [groupKeyCmp]
+  | cons a as ih =>
+    cases y with
+    | nil => simp [groupKeyCmp]
+    | cons b bs =>
+      rw [groupKeyCmp_cons]
+      cases h : elemCmp a b with
+      | eq => simp only [ih bs, List.cons.injEq, (elemCmp_eq_iff a b).1 h, true_and]
+      | lt =>
+        have : a ≠ b := fun e => by rw [(elemCmp_eq_iff a b).2 e] at h; cases h
+        simp [this]
+      | gt =>
+        have : a ≠ b := fun e => by rw [(elemCmp_eq_iff a b).2 e] at h; cases h
+        simp [this]
+
+theorem groupKeyCmp_swap (x y : Key) : groupKeyCmp y x = (groupKeyCmp x y).swap := by
+  induction x generalizing y with
+  | nil => cases y <;> rfl
+  | cons a as ih =>
+    cases y with
+    | nil => rfl
+    | cons b bs =>
+      rw [groupKeyCmp_cons, groupKeyCmp_cons, elemCmp_swap a b]
+      cases h : elemCmp a b <;> simp [Ordering.swap, ih bs]
+
+theorem groupKeyCmp_lt_trans (x y z : Key) (h1 : groupKeyCmp x y = .lt) (h2 : groupKeyCmp y z = .lt) :
+    groupKeyCmp x z = .lt := by
+  induction x generalizing y z with
+  | nil =>
+    cases y with
+    | nil => simp [groupKeyCmp] at h1
+    | cons b bs => cases z with
+      | nil => simp [groupKeyCmp] at h2
+      | cons c cs => rfl
+  | cons a as ih =>
+    cases y with
+    | nil => simp [groupKeyCmp] at h1
+    | cons b bs =>
+      cases z with
+      | nil => simp [groupKeyCmp] at h2
+      | cons c cs =>
+        rw [groupKeyCmp_cons] at h1 h2 ⊢
+        cases hab : elemCmp a b with
+        | gt => rw [hab] at h1; cases h1
+        | eq =>
+          have e := (elemCmp_eq_iff a b).1 hab
+          subst e
+          rw [hab] at h1
+          cases hbc : elemCmp a c with
+          | gt => rw [hbc] at h2; cases h2
+          | lt => rfl
+          | eq => rw [hbc] at h2; exact ih bs cs h1 h2
+        | lt =>
+          cases hbc : elemCmp b c with
+          | gt => rw [hbc] at h2; cases h2
+          | eq =>
+            have e := (elemCmp_eq_iff b c).1 hbc
+            subst e
+            rw [hab]
+          | lt => rw [elemCmp_lt_trans a b c hab hbc]
+
+/-- the `<=` of Context.sort's key -/
+def keyLe (x y : Key) : Bool := groupKeyCmp x y != .gt
+
+theorem keyLe_trans (x y z : Key) (h1 : keyLe x y = true) (h2 : keyLe y z = true) : keyLe x z = true := by
+  unfold keyLe at *
+  cases hxy : groupKeyCmp x y with
+  | gt => simp [hxy] at h1
+  | eq =>
+    have := (groupKeyCmp_eq_iff x y).1 hxy
+    subst this; exact h2
+  | lt =>
+    cases hyz : groupKeyCmp y z with
+    | gt => simp [hyz] at h2
+    | eq =>
+      have := (groupKeyCmp_eq_iff y z).1 hyz
+      subst this; simp [hxy]
+    | lt => simp [groupKeyCmp_lt_trans x y z hxy hyz]
+
+theorem keyLe_total (x y : Key) : (keyLe x y || keyLe y x) = true := by
+  unfold keyLe
+  rw [groupKeyCmp_swap x y]
+  cases groupKeyCmp x y <;> rfl
+
+theorem lt_of_le_of_ne (x y : Key) (h : keyLe x y = true) (hne : x ≠ y) : groupKeyCmp x y = .lt := by
+  unfold keyLe at h
+  cases hxy : groupKeyCmp x y with
+  | lt => rfl
+  | gt => simp [hxy] at h
+  | eq => exact absurd ((groupKeyCmp_eq_iff x y).1 hxy) hne
+
+/-- on a list sorted by the group key, the run keys are strictly increasing -/
+theorem runsFrom_sorted (keyOf : Row → Key) (rest : List Row) : ∀ (cur : List Row) (k : Key),
+    (∀ r ∈ rest, keyLe k (keyOf r) = true) →
+    List.Pairwise (fun a b => keyLe (keyOf a) (keyOf b) = true) rest →
+    ∃ ks, (runsFrom keyOf cur k rest).map (·.1) = k :: ks ∧ List.Pairwise (fun a b => groupKeyCmp a b = .lt) (k :: ks) := by
+  induction rest with
+  | nil => intro cur k _ _; exact ⟨[], by simp [runsFrom], by simp⟩
+  | cons r rest ih =>
+    intro cur k h1 h2
+    rw [List.pairwise_cons] at h2
+    simp only [runsFrom]
+    by_cases hk : keyOf r = k
+    · rw [if_pos hk]
+      exact ih _ k (fun x hx => h1 x (by simp [hx])) h2.2
+    · rw [if_neg hk]
+      obtain ⟨ks, e, hp⟩ := ih [r] (keyOf r) (fun x hx => h2.1 x hx) h2.2
+      refine ⟨keyOf r :: ks, by simp [e], ?_⟩
+      rw [List.pairwise_cons]
+      refine ⟨?_, hp⟩
+      have hlt : groupKeyCmp k (keyOf r) = .lt := lt_of_le_of_ne _ _ (h1 r (by simp)) (fun e => hk e.symm)
+      intro k' hk'
+      simp only [List.mem_cons] at hk'
+      rcases hk' with rfl | hk'
+      · exact hlt
+      · rw [List.pairwise_cons] at hp
+        exact groupKeyCmp_lt_trans _ _ _ hlt (hp.1 k' hk')
+
+theorem sortByGroupKey_sorted (keyOf : Row → Key) (rows : List Row) :
+    List.Pairwise (fun a b => keyLe (keyOf a) (keyOf b) = true) (sortByGroupKey keyOf rows) := by
+  unfold sortByGroupKey
+  exact pairwise_stableSort (le := fun a b => groupKeyCmp (keyOf a) (keyOf b) != .gt)
+    (fun a b c h1 h2 => keyLe_trans _ _ _ h1 h2) (fun a b => keyLe_total _ _) rows
+
+/-- `context.sort(group_by)` puts every key into exactly one run -/
+theorem sorted_clustered (keyOf : Row → Key) (rows : List Row)
+    (hs : List.Pairwise (fun a b => keyLe (keyOf a) (keyOf b) = true) rows) : Clustered keyOf rows := by
+  unfold Clustered
+  cases rows with
+  | nil => simp [runs]
+  | cons r rest =>
+    rw [List.pairwise_cons] at hs
+    obtain ⟨ks, e, hp⟩ := runsFrom_sorted keyOf rest [r] (keyOf r) hs.1 hs.2
+    simp only [runs]
+    rw [e]
+    exact List.Pairwise.imp (fun {a b} (h : groupKeyCmp a b = .lt) (e : a = b) => by
+      subst e; rw [(groupKeyCmp_eq_iff a a).2 rfl] at h; cases h) hp
+
+theorem sortByGroupKey_clustered (keyOf : Row → Key) (rows : List Row) : Clustered keyOf (sortByGroupKey keyOf rows) :=
+  sorted_clustered keyOf _ (sortByGroupKey_sorted keyOf rows)
+
+theorem sortByGroupKey_perm (keyOf : Row → Key) (rows : List Row) : List.Perm (sortByGroupKey keyOf rows) rows :=
+  stableSort_perm _ _
+
+/-! ## GROUP BY depends on the bag of rows only -/
+theorem nodup_dedup {α} [DecidableEq α] (l : List α) : (dedup l).Nodup := by
+  induction l with
+  | nil => simp [dedup]
+  | cons a l ih =>
+    simp only [dedup, List.nodup_cons]
+    constructor
+    · simp [List.mem_filter]
+    · exact List.Pairwise.filter _ ih
+
+theorem dedup_perm {α} [DecidableEq α] (l1 l2 : List α) (h : List.Perm l1 l2) : List.Perm (dedup l1) (dedup l2) := by
+  rw [List.perm_ext_iff_of_nodup (nodup_dedup l1) (nodup_dedup l2)]
+  intro a
+  rw [mem_dedup, mem_dedup]
+  exact h.mem_iff
+
+/-- GROUP BY is a function of the bag of input rows (up to the order of the output rows) when the aggregates are -/
+theorem groupAgg_perm (keyOf : Row → Key) (agg : List Row → Row) (hagg : ∀ a b, List.Perm a b → agg a = agg b)
+    (r1 r2 : List Row) (h : List.Perm r1 r2) : List.Perm (groupAgg keyOf agg r1) (groupAgg keyOf agg r2) := by
+  unfold groupAgg
+  have hF : ∀ k, k ++ agg (r1.filter fun r => keyOf r = k) = k ++ agg (r2.filter fun r => keyOf r = k) := by
+    intro k; rw [hagg _ _ (h.filter _)]
+  simp only [hF]
+  exact (dedup_perm _ _ (h.map keyOf)).map _
+
+theorem perm_sum_int (l1 l2 : List Int) (h : List.Perm l1 l2) : l1.sum = l2.sum := by
+  induction h with
+  | nil => rfl
+  | cons x _ ih => simp [ih]
+  | swap x y l => simp; omega
+  | trans _ _ ih1 ih2 => exact ih1.trans ih2
+
+theorem extremum_unique (dir : Ordering) (hd : dir = .lt ∨ dir = .gt) (vs : List Val) (m1 m2 : Val)
+    (h1 : IsExtremum dir vs m1) (h2 : IsExtremum dir vs m2) : m1 = m2 := by
+  have a := h1.2 m2 h2.1   -- cmp m2 m1 ≠ dir
+  have b := h2.2 m1 h1.1   -- cmp m1 m2 ≠ dir
+  rw [cmp_swap m1 m2] at a
+  apply (cmp_eq_iff m1 m2).1
+  rcases hd with rfl | rfl <;> cases h : Val.cmp m1 m2 <;> simp_all [Ordering.swap]
+
+/-- the ENV aggregates depend only on the bag of their inputs -/
+theorem env_aggs_perm (vs ws : List Val) (h : List.Perm vs ws) :
+    envCount stdCfg vs = envCount stdCfg ws ∧ envSum stdCfg vs = envSum stdCfg ws
+    ∧ envMin stdCfg vs = envMin stdCfg ws ∧ envMax stdCfg vs = envMax stdCfg ws := by
+  have hn : List.Perm (nonNull vs) (nonNull ws) := h.filter _
+  have s1 := agg_functions_spec vs
+  have s2 := agg_functions_spec ws
+  refine ⟨?_, ?_, ?_, ?_⟩
+  · rw [s1.1, s2.1]; simp [aggCount, hn.length_eq]
+  · rw [s1.2.1, s2.2.1]
+    unfold aggSum
+    by_cases e : nonNull vs = []
+    · have : nonNull ws = [] := by rw [e] at hn; exact List.perm_nil.1 hn.symm |> fun x => x
+      simp [e, this]
+    · have : nonNull ws ≠ [] := fun x => e (by rw [x] at hn; exact List.perm_nil.1 hn)
+      simp [e, this, perm_sum_int _ _ (hn.map Val.toInt)]
+  · by_cases e : nonNull vs = []
+    · have : nonNull ws = [] := by rw [e] at hn; exact List.nil_perm.1 hn
+      rw [(s1.2.2.1 e).1, (s2.2.2.1 this).1]
+    · have e2 : nonNull ws ≠ [] := fun x => e (by rw [x] at hn; exact List.perm_nil.1 hn)
+      have a := (s1.2.2.2 e).1
+      have b := (s2.2.2.2 e2).1
+      have b' : IsExtremum .lt (nonNull vs) (envMin stdCfg ws) :=
+        ⟨hn.mem_iff.2 b.1, fun x hx => b.2 x (hn.mem_iff.1 hx)⟩
+      exact extremum_unique .lt (Or.inl rfl) _ _ _ a b'
+  · by_cases e : nonNull vs = []
+    · have : nonNull ws = [] := by rw [e] at hn; exact List.nil_perm.1 hn
+      rw [(s1.2.2.1 e).2, (s2.2.2.1 this).2]
+    · have e2 : nonNull ws ≠ [] := fun x => e (by rw [x] at hn; exact List.perm_nil.1 hn)
+      have a := (s1.2.2.2 e).2
+      have b := (s2.2.2.2 e2).2
+      have b' : IsExtremum .gt (nonNull vs) (envMax stdCfg ws) :=
+        ⟨hn.mem_iff.2 b.1, fun x hx => b.2 x (hn.mem_iff.1 hx)⟩
+      exact extremum_unique .gt (Or.inr rfl) _ _ _ a b'
+
+/-! ## aggregate()'s limit break -/
+theorem aggLoop_step_cap (keyOf : Row → Key) (agg : List Row → Row) (rows : List Row) (n i : Nat) (r : Row) (rest : List Row)
+    (k : Key) (s e : Nat) (out : List Row) :
+    aggLoop stdCfg keyOf agg rows (some n) i (r :: rest) ⟨some k, s, e, out⟩ =
+      if n ≤ (if keyOf r ≠ k then out ++ [k ++ agg (slice rows s (e + 1 - 2))] else out).length
+      then (if keyOf r ≠ k then out ++ [k ++ agg (slice rows s (e + 1 - 2))] else out)
+      else aggLoop stdCfg keyOf agg rows (some n) (i + 1) rest
+        ⟨some (if keyOf r ≠ k then keyOf r else k), (if keyOf r ≠ k then e + 1 - 2 else s), e + 1,
+          (if i = rows.length - 1 then
+            (if keyOf r ≠ k then out ++ [k ++ agg (slice rows s (e + 1 - 2))] else out)
+              ++ [(if keyOf r ≠ k then keyOf r else k) ++ agg (slice rows (if keyOf r ≠ k then e + 1 - 2 else s) (e + 1 - 1))]
+           else (if keyOf r ≠ k then out ++ [k ++ agg (slice rows s (e + 1 - 2))] else out))⟩ := by
+  rw [aggLoop]
+  simp only [capReached, stdCfg, Option.getD_some, ge_iff_le, decide_eq_true_eq]
+
+theorem aggLoop_nil_cap (keyOf : Row → Key) (agg : List Row → Row) (rows : List Row) (c : Option Nat) (i : Nat) (st : AggSt) :
+    aggLoop stdCfg keyOf agg rows c i [] st = st.out := rfl
+
+theorem take_append_one_more {α} (l : List α) (x : α) (m : List α) (n : Nat) (h : l.length + 1 = n) :
+    (l ++ x :: m).take n = l ++ [x] := by
+  subst h
+  have : l ++ x :: m = (l ++ [x]) ++ m := by simp
+  rw [this]
+  have hl : (l ++ [x]).length = l.length + 1 := by simp
+  rw [← hl, List.take_left']
+  rfl
+
+theorem aggLoop_inv_cap (keyOf : Row → Key) (agg : List Row → Row) (rows : List Row) (n : Nat) (rest : List Row) :
+    ∀ (r : Row) (i s : Nat) (k : Key) (out : List Row), rows.drop i = r :: rest → s ≤ i → out.length < n →
+    aggLoop stdCfg keyOf agg rows (some n) i (r :: rest) ⟨some k, s, i + 1, out⟩
+      = (out ++ emitRuns agg (runsFrom keyOf (slice rows s i) k (r :: rest))).take n := by
+  induction rest with
+  | nil =>
+    intro r i s k out hd hs hlen
+    have hl := length_of_drop rows i r [] hd
+    have hlast : i = rows.length - 1 := by simp at hl; omega
+    rw [aggLoop_step_cap, aggLoop_nil_cap]
+    simp only []
+    rw [if_pos hlast]
+    have e1 : i + 1 + 1 - 2 = i := by omega
+    have e2 : i + 1 + 1 - 1 = i + 1 := by omega
+    rw [e1, e2]
+    by_cases hk : keyOf r = k
+    · have hk2 : ¬ keyOf r ≠ k := by simpa using hk
+      simp only [hk2, if_false]
+      rw [if_neg (by omega)]
+      simp only [runsFrom, if_pos hk, emitRuns, List.map_cons, List.map_nil]
+      rw [slice_succ rows s i r [] hd hs, List.take_of_length_le (by simp; omega)]
+    · have hk2 : keyOf r ≠ k := hk
+      simp only [hk2, if_true, ne_eq, not_false_eq_true]
+      simp only [runsFrom, if_neg hk, emitRuns, List.map_cons, List.map_nil, slice_one rows i r [] hd]
+      by_cases hn : n ≤ (out ++ [k ++ agg (slice rows s i)]).length
+      · rw [if_pos hn]
+        simp at hn
+        rw [take_append_one_more out _ _ n (by omega)]
+      · rw [if_neg hn]
+        simp at hn
+        rw [List.take_of_length_le (by simp; omega)]
+        simp
+  | cons r' rest' ih =>
+    intro r i s k out hd hs hlen
+    have hl := length_of_drop rows i r (r' :: rest') hd
+    have hlast : ¬ i = rows.length - 1 := by simp at hl; omega
+    have hd' : rows.drop (i + 1) = r' :: rest' := by
+      have : rows.drop (i + 1) = (rows.drop i).drop 1 := by simp [List.drop_drop]
+      rw [this, hd]; rfl
+    rw [aggLoop_step_cap]
+    rw [if_neg hlast]
+    have e1 : i + 1 + 1 - 2 = i := by omega
+    rw [e1]
+    by_cases hk : keyOf r = k
+    · have hk2 : ¬ keyOf r ≠ k := by simpa using hk
+      simp only [if_neg hk2]
+      rw [if_neg (by omega)]
+      rw [ih r' (i + 1) s k out hd' (by omega) hlen]
+      conv => rhs; rw [runsFrom, if_pos hk]
+      rw [slice_succ rows s i r _ hd hs]
+    · have hk2 : keyOf r ≠ k := hk
+      simp only [if_pos hk2]
+      conv => rhs; rw [runsFrom, if_neg hk]
+      by_cases hn : n ≤ (out ++ [k ++ agg (slice rows s i)]).length
+      · rw [if_pos hn]
+        simp at hn
+        simp only [emitRuns, List.map_cons]
+        rw [take_append_one_more out _ _ n (by omega)]
+      · rw [if_neg hn]
+        simp at hn
+        rw [ih r' (i + 1) i (keyOf r) _ hd' (by omega) (by simp; omega)]
+        rw [slice_one rows i r _ hd]
+        simp [emitRuns]
+
+theorem aggLoop_first_cap (keyOf : Row → Key) (agg : List Row → Row) (rows : List Row) (n : Nat) (r : Row) (rest : List Row) :
+    aggLoop stdCfg keyOf agg rows (some n) 0 (r :: rest) ⟨none, 0, 1, []⟩ =
+      if n = 0 then [] else
+      aggLoop stdCfg keyOf agg rows (some n) 1 rest
+        ⟨some (keyOf r), 0, 2, (if 0 = rows.length - 1 then [keyOf r ++ agg (slice rows 0 1)] else [])⟩ := by
+  rw [aggLoop]
+  simp [capReached, stdCfg]
+
+/-- with the limit break (`cap` = offset + limit, no HAVING): the first `cap` runs -/
+theorem aggregate_runs_limit_spec (keyOf : Row → Key) (agg : List Row → Row) (rows : List Row) (hne : rows ≠ [])
+    (g : Bool) (n : Nat) (lim : Option Nat) :
+    aggregateSorted stdCfg keyOf agg g (some n) lim rows = (emitRuns agg (runs keyOf rows)).take n := by
+  cases rows with
+  | nil => exact absurd rfl hne
+  | cons r rest =>
+    have hlen : (r :: rest).length ≠ 0 := by simp
+    unfold aggregateSorted
+    rw [if_pos hlen]
+    show aggLoop stdCfg keyOf agg (r :: rest) (some n) 0 (r :: rest) ⟨none, 0, 1, []⟩ = _
+    rw [aggLoop_first_cap]
+    by_cases hn : n = 0
+    · subst hn; simp
+    · rw [if_neg hn]
+      cases rest with
+      | nil =>
+        rw [aggLoop_nil_cap]
+        simp only [List.length_singleton, Nat.sub_self, if_true, runs, runsFrom, emitRuns, List.map_cons, List.map_nil]
+        rw [List.take_of_length_le (by simp; omega)]
+        simp [slice]
+      | cons r' rest' =>
+        have hl : ¬ (0 = (r :: r' :: rest').length - 1) := by simp
+        rw [if_neg hl]
+        rw [aggLoop_inv_cap keyOf agg (r :: r' :: rest') n rest' r' 1 0 (keyOf r) [] (by simp) (by omega) (by simp; omega)]
+        simp [slice, runs]
+
+
+/-! ## ANY / ALL subquery comparison -/
+theorem nullIfAny_cmp (op : CmpOp) (x y : Val) : nullIfAny2 (pyCmp op) x y = triVal (cmp3 op x y) := by
+  cases x <;> cases y <;> simp [nullIfAny2, cmp3, triVal, pyCmp]
+
+theorem tri_branch {α} (t : Tri) (isAny : Bool) (A B C : α) :
+    (if triVal t = Val.null then A else if truthy (triVal t) = isAny then B else C)
+      = match t with
+        | none => A
+        | some b => if b = isAny then B else C := by
+  cases t with
+  | none => simp [triVal]
+  | some b => cases b <;> simp [triVal, truthy]
+
+theorem subqLoop_any (op : CmpOp) (v : Val) (xs : List Val) (sn : Bool) :
+    subqLoop (fun a b => triVal (cmp3 op a b)) true v xs sn
+      = triVal (or3 (any3 op v xs) (if sn then none else some false)) := by
+  induction xs generalizing sn with
+  | nil => cases sn <;> rfl
+  | cons x xs ih =>
+    simp only [subqLoop, any3]
+    rw [tri_branch, ih true, ih sn]
+    generalize cmp3 op v x = t
+    generalize any3 op v xs = A
+    cases t with
+    | none => cases A with
+      | none => cases sn <;> rfl
+      | some b => cases b <;> cases sn <;> rfl
+    | some c => cases c <;> (cases A with
+      | none => cases sn <;> rfl
+      | some b => cases b <;> cases sn <;> rfl)
+
+theorem subqLoop_all (op : CmpOp) (v : Val) (xs : List Val) (sn : Bool) :
+    subqLoop (fun a b => triVal (cmp3 op a b)) false v xs sn
+      = triVal (and3 (all3 op v xs) (if sn then none else some true)) := by
+  induction xs generalizing sn with
+  | nil => cases sn <;> rfl
+  | cons x xs ih =>
+    simp only [subqLoop, all3]
+    rw [tri_branch, ih true, ih sn]
+    generalize cmp3 op v x = t
+    generalize all3 op v xs = A
+    cases t with
+    | none => cases A with
+      | none => cases sn <;> rfl
+      | some b => cases b <;> cases sn <;> rfl
+    | some c => cases c <;> (cases A with
+      | none => cases sn <;> rfl
+      | some b => cases b <;> cases sn <;> rfl)
+
+/-- `v op ANY/ALL (subquery)`: the early-exit loop with its saw_null flag is the Kleene disjunction / conjunction -/
+theorem subquery_comparison_spec (op : CmpOp) (v : Val) (xs : List Val) :
+    subqueryComparison stdCfg (cmpName op) "ANY" v xs = some (triVal (any3 op v xs))
+    ∧ subqueryComparison stdCfg (cmpName op) "ALL" v xs = some (triVal (all3 op v xs)) := by
+  have hl : lookup (cmpName op) stdCfg.cmpOps = some op := by cases op <;> rfl
+  have hf : nullIfAny2 (pyCmp op) = fun a b => triVal (cmp3 op a b) := by
+    funext a b; exact nullIfAny_cmp op a b
+  constructor
+  · simp only [subqueryComparison, hl, hf]
+    have : (("ANY" : String) == "ANY") = true := by decide
+    rw [this, subqLoop_any]
+    cases any3 op v xs with
+    | none => rfl
+    | some b => cases b <;> rfl
+  · simp only [subqueryComparison, hl, hf]
+    have : (("ALL" : String) == "ANY") = false := by decide
+    rw [this, subqLoop_all]
+    cases all3 op v xs with
+    | none => rfl
+    | some b => cases b <;> rfl
+
+
+/-! ## scan / _project_and_filter -/
+def takeCap (cap : Option Nat) (rows : List Row) : List Row :=
+  match cap with | none => rows | some n => rows.take n
+
+theorem projectFilterLoop_spec (cond : Option (Row → Val)) (projs : Option (Row → Row)) (cap : Option Nat)
+    (rows sink : List Row) (hs : ∀ n, cap = some n → sink.length ≤ n) :
+    projectFilterLoop cond projs cap rows sink = takeCap cap (sink ++ selectWhere cond projs rows) := by
+  induction rows generalizing sink with
+  | nil =>
+    simp only [projectFilterLoop, selectWhere, List.filter_nil, List.map_nil, List.append_nil]
+    cases cap with
+    | none => rfl
+    | some n => simp only [takeCap]; rw [List.take_of_length_le (hs n rfl)]
+  | cons row rest ih =>
+    simp only [projectFilterLoop]
+    by_cases hc : capReached cap sink = true
+    · rw [if_pos hc]
+      cases cap with
+      | none => simp [capReached] at hc
+      | some n =>
+        simp only [capReached, ge_iff_le, decide_eq_true_eq] at hc
+        have := hs n rfl
+        simp only [takeCap]
+        rw [List.take_left' (by omega)]
+    · rw [if_neg hc]
+      have hlt : ∀ n, cap = some n → sink.length < n := by
+        intro n hn; subst hn
+        simp only [capReached, ge_iff_le, decide_eq_true_eq] at hc; omega
+      by_cases hk : keeps cond row = true
+      · simp only [hk, Bool.not_true, Bool.false_eq_true, if_false]
+        rw [ih _ (by intro n hn; have := hlt n hn; simp; omega)]
+        simp [selectWhere, List.filter_cons, hk]
+      · have hk' : keeps cond row = false := by simpa using hk
+        simp only [hk', Bool.not_false, if_true]
+        rw [ih sink hs]
+        simp [selectWhere, List.filter_cons, hk']
+
+/-- scan / _project_and_filter: the filtered, projected rows, cut at offset + limit -/
+theorem scan_spec (src : ScanSource) (cond : Option (Row → Val)) (projs : Option (Row → Row)) (cap : Option Nat) :
+    scan src cond projs cap
+      = takeCap cap (selectWhere cond projs (match src with | .static => [[]] | .table rows => rows)) := by
+  unfold scan projectFilter
+  rw [projectFilterLoop_spec _ _ _ _ [] (by intro n _; simp)]
+  rfl
+
+/-- … and with `_execute`'s offset slice it is LIMIT / OFFSET of the reference semantics -/
+theorem scan_limit_offset_spec (src : ScanSource) (cond : Option (Row → Val)) (projs : Option (Row → Row))
+    (limit : Option Nat) (offset : Nat) :
+    applyOffset offset (scan src cond projs (capOf limit offset))
+      = limitOffset limit offset (selectWhere cond projs (match src with | .static => [[]] | .table rows => rows)) := by
+  rw [scan_spec]
+  cases limit with
+  | none => rfl
+  | some n =>
+    simp only [capOf, Option.map, takeCap, applyOffset]
+    exact slice_limit_offset (some n) offset _
 
 end SqlglotModel.Exec
